@@ -977,6 +977,21 @@ def static_obligations(repo) -> list[str]:
         }.items():
             if _norm(ast.parse(s).body[0].value) not in d:
                 broken.append(f"static: rule.py logical_parse: {what} `{s}` not found")
+    tdc = _find(clsm, "transform_dataclass")
+    if not tdc:
+        broken.append("static: cls.py transform_dataclass not found")
+    else:
+        first = tdc.body[0] if tdc.body else None
+        want = ("if isinstance(data, (list, tuple)) and not transformer.options.no_explicit_cast:\n"
+                "    if data:\n"
+                "        if transformer.options.no_data_loss and len(data) > 1:\n"
+                "            raise TypeError\n"
+                "        data = data[0]\n"
+                "        if type(data) == cls:\n"
+                "            return data")
+        if first is None or _norm(first) != _src(want):
+            broken.append("static: cls.py transform_dataclass: the single-item sequence unwrapping differs from the modelled "
+                          "`if sequence and not no_explicit_cast: if data: (no_data_loss and len > 1 → TypeError); data = data[0]`")
     idc = _find(clsm, "init_dataclass")
     if not idc:
         broken.append("static: cls.py init_dataclass not found")
@@ -1003,14 +1018,17 @@ class C18(Check):
             "no_data_loss / no_explicit_cast / data_first_search; inputs: (a) the position x depth x max_depth matrix "
             "(22 positions incl. list index 0/1/last, dict key ''/'a'/0/1, every union branch, Optional, nested containers), "
             "(b) type-directed random values with invalid / preference-dependent leaves, shape mismatches, unknown keys, "
-            "(c) cyclic inputs, (d) a single invalid leaf below k levels; entry points K(**d), K.__from__, type_transform. "
+            "(c) cyclic inputs — through data-class fields, through single-item lists / tuples standing for a mapping, and built "
+            "from lists / tuples alone (x=[x], x=[(x,)], x=[[x]]) at every position —, (d) a single invalid leaf below k levels, "
+            "(e) JSON-like unions nested through containers without a data class, depth 1..12, valid / lossy / invalid leaf; "
+            "entry points K(**d), K.__from__, type_transform. "
             "Every case runs with the declared limits and with all limits removed.  non-trivial = the input reaches a nested "
             "data class (result or input nesting >= 2) or is cyclic; distinct by (declaration, input, entry)")
     assumptions = [
         "the leaf converter is the harness' counting converter (token classes mod 4); the theorems are for every leaf behaviour",
         "a cyclic Python object is represented in the model by a finite unfolding deeper than any level the limited parser can reach",
-        "outside the modelled fragment (list given to a data class / Dict type, non-string keys given to a data class) cases are "
-        "spec-swept but not compared with the model",
+        "outside the modelled fragment (sequences of key/value pairs given to a data class / Dict type, non-string keys given to "
+        "a data class, K.__from__(sequence)) cases are spec-swept but not compared with the model",
     ]
     budget = {"quick": 1400, "thorough": 30000}
     stats: dict = {}
